@@ -97,7 +97,8 @@ def resolve(rows, cols, sel):
 
 def ev(expr):
     """Selectors are stored as Python expressions (JSON-able strings): ev("(1, slice(None, 2))")."""
-    return eval(expr, {'__builtins__': {}, 'slice': slice, 'None': None, 'True': True, 'False': False})
+    import numpy
+    return eval(expr, {'__builtins__': {}, 'slice': slice, 'None': None, 'True': True, 'False': False, 'np': numpy})
 
 
 def default_rows(n):
